@@ -307,3 +307,98 @@ theorem parseLoop_nat : ∀ (fuel : Nat) (s : PS) (acc : List Msg),
 end Reloc
 end Sml
 end Secs
+
+namespace Secs
+namespace Sml
+open Lex
+
+/-- an outcome with every diagnostic moved through `ρ` -/
+def Outcome.reloc (ρ : Reloc) : Outcome → Outcome
+  | .done ms es ws => .done ms (es.map ρ.diag) (ws.map ρ.diag)
+  | .panic => .panic
+
+theorem Reloc.ps_init (ρ : Reloc) (hE : ρ.E = []) (hW : ρ.W = []) (toks : List Tok) :
+    ρ.ps { toks := toks } = { toks := toks.map ρ.tok } := by
+  simp [Reloc.ps, hE, hW]
+
+/-- The parser is natural in token positions: moving every token through `π` moves every
+diagnostic through `π` and changes nothing else — same messages, same diagnostic texts, same
+order. -/
+theorem parseToks_nat (ρ : Reloc) (hE : ρ.E = []) (hW : ρ.W = []) (toks : List Tok) :
+    parseToks (toks.map ρ.tok) = (parseToks toks).reloc ρ := by
+  unfold parseToks
+  rw [← ρ.ps_init hE hW, List.length_map, ρ.parseLoop_nat]
+  cases h : parseLoop (toks.length + 1) { toks := toks } [] with
+  | none => rfl
+  | some r =>
+    simp only [Option.map_some, Reloc.ps, hE, hW, List.append_nil, List.isEmpty_map]
+    split <;> simp [Outcome.reloc, List.map_reverse]
+
+/-- erase positions -/
+def eraseTok (t : Tok) : Tok := { t with line := 0, col := 0 }
+def eraseDiag (d : Diag) : Diag := { d with line := 0, col := 0 }
+def eraser : Reloc := { π := fun _ _ => (0, 0), E := [], W := [], fix0 := rfl }
+
+theorem eraser_tok (t : Tok) : eraser.tok t = eraseTok t := rfl
+theorem eraser_diag (d : Diag) : eraser.diag d = eraseDiag d := rfl
+
+/-- what an outcome says apart from positions: messages, error texts, warning texts -/
+def Outcome.content : Outcome → Option (List Msg × List String × List String)
+  | .done ms es ws => some (ms, es.map (·.kind), ws.map (·.kind))
+  | .panic => none
+
+theorem content_reloc (ρ : Reloc) (o : Outcome) : (o.reloc ρ).content = o.content := by
+  cases o <;> simp [Outcome.reloc, Outcome.content, Reloc.diag, Function.comp_def]
+
+/-- Layout cannot influence what is parsed: two token streams that differ only in the positions
+stamped on the tokens give the same messages and the same diagnostic texts in the same order. -/
+theorem positions_irrelevant (t1 t2 : List Tok) (h : t1.map eraseTok = t2.map eraseTok) :
+    (parseToks t1).content = (parseToks t2).content := by
+  have h1 := parseToks_nat eraser rfl rfl t1
+  have h2 := parseToks_nat eraser rfl rfl t2
+  have e1 : t1.map eraser.tok = t1.map eraseTok := rfl
+  have e2 : t2.map eraser.tok = t2.map eraseTok := rfl
+  rw [e1] at h1; rw [e2] at h2
+  rw [← content_reloc eraser (parseToks t1), ← h1, h, h2, content_reloc]
+
+/-- Diagnostics move exactly as the tokens they are stamped on: if the second stream is the
+first with every position moved by `π` (a shift by inserted lines and columns, say), the
+outcome is the first outcome with every diagnostic moved by `π`. -/
+theorem diagnostics_move_with_tokens (π : Nat → Nat → Nat × Nat) (h0 : π 0 0 = (0, 0)) (toks : List Tok) :
+    parseToks (toks.map (fun t => { t with line := (π t.line t.col).1, col := (π t.line t.col).2 })) =
+      match parseToks toks with
+      | .done ms es ws =>
+        .done ms (es.map (fun d => { d with line := (π d.line d.col).1, col := (π d.line d.col).2 }))
+          (ws.map (fun d => { d with line := (π d.line d.col).1, col := (π d.line d.col).2 }))
+      | .panic => .panic := by
+  have := parseToks_nat { π := π, E := [], W := [], fix0 := h0 } rfl rfl toks
+  show parseToks (toks.map (Reloc.tok { π := π, E := [], W := [], fix0 := h0 })) = _
+  rw [this]
+  cases parseToks toks <;> rfl
+
+/-- What was reported before does not influence what follows: running the message loop with
+warnings `W0` already collected gives the same messages, tokens, names and counters, and the
+same new diagnostics on top of `W0`. -/
+theorem parseLoop_frame (W0 : List Diag) (fuel : Nat) (s : PS) (acc : List Msg) :
+    parseLoop fuel { s with warns := s.warns ++ W0 } acc =
+      (parseLoop fuel s acc).map (fun r => (r.1, { r.2 with warns := r.2.warns ++ W0 })) := by
+  let ρ : Reloc := { π := fun l c => (l, c), E := [], W := W0, fix0 := rfl }
+  have htok : ∀ t : Tok, ρ.tok t = t := fun t => rfl
+  have hdiag : ∀ d : Diag, ρ.diag d = d := fun d => rfl
+  have hps : ∀ s : PS, ρ.ps s = { s with warns := s.warns ++ W0 } := by
+    intro s
+    simp only [Reloc.ps]
+    have e1 : s.toks.map ρ.tok = s.toks := by
+      rw [show ρ.tok = id from funext htok]; simp
+    have e2 : ∀ l : List Diag, l.map ρ.diag = l := by
+      intro l; rw [show ρ.diag = id from funext hdiag]; simp
+    rw [e1, e2, e2]; simp [ρ]
+  have := ρ.parseLoop_nat fuel s acc
+  rw [hps] at this
+  rw [this]
+  cases parseLoop fuel s acc with
+  | none => rfl
+  | some r => simp [hps]
+
+end Sml
+end Secs
